@@ -18,6 +18,7 @@ import (
 func (s *c11) hostEntries() {
 	c, r := s.c, s.r
 	dir := "/walhost"
+	s.disk.Fail, s.disk.CrashAt = nil, -1 // no fault left armed by the main history
 	w, err := f3.VerifOpenWAL(dir)
 	if err != nil {
 		s.fail("open_failed", "host", "opening a WAL of host entries failed: %v", err)
